@@ -156,10 +156,13 @@ def generate(rng, opts):
     for _ in range(nvalues):
         cmds.extend(linearise(g.value(0, palette), None, r))
     events = []
-    nsnap = 0
+    # arrays that did not come out of a builder as sources of append/extend: IndexedArray32/U32/64 and
+    # IndexedOptionArray32/64 over numbers, strings or lists (each index class has its own builder class)
+    sources = [gen_source(r) for _ in range(r.choice([1, 1, 2]))] if r.random() < 0.25 else []
+    nsnap = len(sources)
     p_reader = r.choice([0.05, 0.15, 0.3])
     p_clear = r.choice([0.0, 0.0, 0.02, 0.08])
-    p_append = r.choice([0.0, 0.0, 0.05, 0.15])
+    p_append = r.choice([0.0, 0.0, 0.05, 0.15]) if not sources else r.choice([0.15, 0.3])
     p_ill = r.choice([0.0, 0.0, 0.0, 0.03])
     p_alloc = r.choice([0.0, 0.0, 0.0, 0.02, 0.08])
     for c in cmds:
@@ -190,7 +193,20 @@ def generate(rng, opts):
         events.append(["dropbuilder"])
     return {"initial": r.choice(INITIAL), "resize": r.choice(RESIZE), "twin": [r.choice(INITIAL), r.choice(RESIZE)],
             "field_mode": r.choice(["fast", "check"]), "via": 1 if r.random() < 0.3 else 0, "events": events,
-            "clear_inside": p_clear > 0 and r.random() < 0.3}
+            "clear_inside": p_clear > 0 and r.random() < 0.3, "sources": sources}
+
+
+def gen_source(r):
+    from ..models import layout_gen as lg
+    sg = lg.SpecGen(r, {})
+    m = r.randint(1, 5)
+    inner = r.choice([["num", "int64"], ["num", "int64"], ["num", "float64"], ["num", "bool"], ["list", ["num", "int64"]], ["str"]])
+    content = sg.array(inner, m, wrap=False)
+    n = r.randint(1, 5)
+    opt = r.random() < 0.35
+    idx = [-1 if opt and r.random() < 0.3 else r.randrange(m) for _ in range(n)]
+    w = r.choice(["i32", "i64"]) if opt else r.choice(["i32", "u32", "u32", "i64"])
+    return {"k": "indexed", "option": opt, "index": lg.mk_index(r, idx, w), "n": n, "content": content}
 
 
 # ================================================================================================ reference model
@@ -474,6 +490,10 @@ def execute(node, case, rec, opts):
     twin = B(node, case["twin"][0], case["twin"][1], 0, case["field_mode"])
     builders = [b, twin]
     snaps = []          # per snapshot taken: dict(h, twin_h, value, alive)
+    for spec in case.get("sources") or []:
+        from ..models import layout_gen as lg
+        h, th = lg.realize(node, spec), lg.realize(node, spec)
+        snaps.append({"h": h, "twin": th, "value": dump(node, h), "alive": True, "union": False})
     strict = True       # False once a refused command made the builder state unspecified
     relaxed = False     # True once `clear` happened
     alive = True
@@ -829,7 +849,8 @@ ASSUMPTIONS = [
     "RecordBuilder and TupleBuilder always did, F6/F110): the commands of the interrupted value are not sent",
     "in histories containing clear(), numbers compare numerically and records may carry extra all-None fields "
     "(the property does not say whether type knowledge survives clear)",
-    "append/extend sources are snapshots taken earlier in the run whose element type is record-free; the *_fast "
+    "append/extend sources are snapshots taken earlier in the run whose element type is record-free, and driver-built "
+    "IndexedArray32/U32/64 / IndexedOptionArray32/64 over numbers, strings or lists of numbers; the *_fast "
     "entry points get interned names (address equality = string equality)",
     "ak.from_iter / ak.ArrayBuilder (pybind11, Python) cannot be built here: the same command stream is issued "
     "through the C++ ArrayBuilder API and the extern \"C\" awkward_ArrayBuilder_* functions",
